@@ -118,6 +118,114 @@ def free_vars(e, acc=None, seen=None):
 
 
 
+_ND_CACHE = {}
+
+
+def _numden(t, depth=0):
+    """(numerator, denominator) z3 terms of a rational-function term; non-arithmetic subterms are atoms."""
+    i = t.get_id()
+    ent = _ND_CACHE.get(i)
+    if ent is not None and ent[0].eq(t):   # the cached term is kept alive, so its id cannot have been recycled
+        return ent[1]
+    one = z3.RealVal(1)
+    r = None
+    if z3.is_app(t) and t.sort().kind() == z3.Z3_REAL_SORT:
+        k = t.decl().kind()
+        ch = t.children()
+        if k == z3.Z3_OP_DIV:
+            (n1, d1), (n2, d2) = _numden(ch[0]), _numden(ch[1])
+            r = (n1 * d2, d1 * n2)
+        elif k == z3.Z3_OP_MUL:
+            n, d = one, one
+            for c in ch:
+                cn, cd = _numden(c)
+                n, d = n * cn, d * cd
+            r = (n, d)
+        elif k in (z3.Z3_OP_ADD, z3.Z3_OP_SUB):
+            n, d = _numden(ch[0])
+            for c in ch[1:]:
+                cn, cd = _numden(c)
+                if cd.eq(d):
+                    n = n + cn if k == z3.Z3_OP_ADD else n - cn
+                else:
+                    n = (n * cd + cn * d) if k == z3.Z3_OP_ADD else (n * cd - cn * d)
+                    d = d * cd
+            r = (n, d)
+        elif k == z3.Z3_OP_UMINUS:
+            n, d = _numden(ch[0])
+            r = (-n, d)
+    if r is None:
+        r = (t, one)
+    if len(_ND_CACHE) > 100000:
+        _ND_CACHE.clear()
+    _ND_CACHE[i] = (t, r)
+    return r
+
+
+def poly_equal(a, b):
+    """True if a == b as rational functions (denominators assumed non-zero): decided by expanding
+    n_a*d_b - n_b*d_a to a sum of monomials.  False means 'not shown', not 'different'."""
+    try:
+        (na, da), (nb, db) = _numden(a), _numden(b)
+        diff = z3.simplify(na * db - nb * da, som=True)
+        return (z3.is_rational_value(diff) or z3.is_int_value(diff)) and frac_of(diff) == 0
+    except Exception:
+        return False
+
+
+def portfolio_check(assertions, total_ms, stats=None, want_model=False):
+    """z3's run time on small mixed queries varies by orders of magnitude with term numbering; a few short attempts
+    with different seeds/arith back ends are far more reliable than one long attempt.  First definite answer wins."""
+    plans = [(0.15, dict(random_seed=0)), (0.15, dict(random_seed=11, **{"smt.arith.solver": 2})),
+             (0.2, dict(random_seed=23, **{"smt.arith.solver": 6})), (0.5, dict(random_seed=5))]
+    last = "unknown"
+    for frac, opts in plans:
+        sv = z3.Solver()
+        sv.set("timeout", max(200, int(total_ms * frac)))
+        for k, v in opts.items():
+            try:
+                sv.set(k, v)
+            except z3.Z3Exception:
+                pass
+        for a in assertions:
+            sv.add(a)
+        t0 = time.time()
+        r = str(sv.check())
+        if stats is not None:
+            stats["queries"] += 1
+            stats["solver_s"] += time.time() - t0
+        if r in ("sat", "unsat"):
+            return r, (sv.model() if (r == "sat" and want_model) else None)
+        last = r
+    return last, None
+
+
+def _maximal_nonlinear(exprs):
+    """Distinct maximal non-linear subterms (products of >= 2 non-numerals, divisions by a non-numeral)."""
+    found, visited = {}, set()
+
+    def num(t):
+        return z3.is_rational_value(t) or z3.is_int_value(t)
+    stack = list(exprs)
+    while stack:
+        t = stack.pop()
+        i = t.get_id()
+        if i in visited:
+            continue
+        visited.add(i)
+        if z3.is_app(t):
+            k = t.decl().kind()
+            ch = t.children()
+            if k == z3.Z3_OP_MUL and sum(1 for c in ch if not num(c)) >= 2:
+                found[i] = t
+                continue
+            if k in (z3.Z3_OP_DIV, z3.Z3_OP_IDIV, z3.Z3_OP_MOD, z3.Z3_OP_POWER) and not num(ch[1]):
+                found[i] = t
+                continue
+            stack.extend(ch)
+    return list(found.values())
+
+
 def _innermost_toint(exprs):
     """Distinct ToInt applications whose argument contains no further ToInt."""
     found, seen = {}, {}
@@ -715,6 +823,11 @@ class SymCtx(BaseCtx):
             self.stats["syntactic"] += 1
             self.obligations.append(Obligation(label, "syntactic", None, 0.0, kind))
             return True
+        if z3.is_app(s) and s.decl().kind() == z3.Z3_OP_DISTINCT and s.num_args() == 2 and poly_equal(s.arg(0), s.arg(1)):
+            self.stats["syntactic"] += 1
+            self.stats["discharged_by_polynomial_identity"] = self.stats.get("discharged_by_polynomial_identity", 0) + 1
+            self.obligations.append(Obligation(label, "syntactic", None, time.time() - t0, kind))
+            return True
         if self.rewrites:
             s2 = z3.simplify(self._apply_rewrites(neg))
             if z3.is_false(s2):
@@ -725,8 +838,10 @@ class SymCtx(BaseCtx):
             s = s2
         r, m = self._fresh_check([s], min(self.quick_ms, self.timeout_ms))
         if r == "unknown":
-            r2 = self._retry_toint_unified(s)
-            if r2 == "unsat":
+            if self._retry_abstract_nonlinear(s) == "unsat":
+                r = "unsat"
+                self.stats["unsat_after_nonlinear_abstraction"] = self.stats.get("unsat_after_nonlinear_abstraction", 0) + 1
+            elif self._retry_toint_unified(s) == "unsat":
                 r = "unsat"
                 self.stats["unsat_after_toint_unification"] = self.stats.get("unsat_after_toint_unification", 0) + 1
             else:
@@ -748,20 +863,34 @@ class SymCtx(BaseCtx):
 
     def _fresh_check(self, extras, timeout_ms):
         """Non-incremental query (lets z3 choose its nlsat-based strategy for pure real arithmetic)."""
-        sv = z3.Solver()
-        sv.set("timeout", int(timeout_ms))
-        for a in self.assumptions:
-            sv.add(a)
-        for l in self.lits:
-            sv.add(l)
-        for e in extras:
-            sv.add(e)
-        self.stats["queries"] += 1
-        t0 = time.time()
-        r = str(sv.check())
-        m = sv.model() if r == "sat" else None
-        self.stats["solver_s"] += time.time() - t0
-        return r, m
+        return portfolio_check(list(self.assumptions) + list(self.lits) + list(extras), timeout_ms, self.stats,
+                               want_model=True)
+
+    def _retry_abstract_nonlinear(self, neg):
+        """Fallback for `unknown`: every maximal non-linear subterm is replaced by a fresh real (same term, same
+        variable).  The abstraction only forgets facts, so `unsat` carries over; any other answer is ignored."""
+        exprs = [z3.simplify(e) for e in list(self.assumptions) + list(self.lits)
+                 + [self._apply_rewrites(e) for e in self.lits] + [neg]]
+        terms = _maximal_nonlinear(exprs)
+        if not terms:
+            return "unknown"
+        pairs, reps = [], []
+        for i, t in enumerate(terms):
+            if t.sort().kind() != z3.Z3_REAL_SORT:
+                pairs.append((t, z3.Int(f"__nli{i}")))
+                continue
+            var = None
+            if len(reps) <= 60:
+                for (rt, rv) in reps:
+                    if poly_equal(t, rt):
+                        var = rv
+                        break
+            if var is None:
+                var = z3.Real(f"__nl{i}")
+                reps.append((t, var))
+            pairs.append((t, var))
+        r, _ = portfolio_check([z3.substitute(e, *pairs) for e in exprs], min(self.timeout_ms, 12000), self.stats)
+        return r
 
     def _retry_toint_unified(self, neg):
         """Fallback for `unknown`: every ToInt(arg) is replaced by an integer variable k with k <= arg < k+1
@@ -775,6 +904,7 @@ class SymCtx(BaseCtx):
             eqs.add(a)
         nfresh = 0
         budget = 400
+        has_toint_lits = False
         for _round in range(6):
             terms = _innermost_toint(exprs)
             if not terms:
@@ -785,6 +915,9 @@ class SymCtx(BaseCtx):
                 arg = t.arg(0)
                 target = None
                 for (rarg, rk) in reps:
+                    if poly_equal(arg, rarg):
+                        target = rk
+                        break
                     d = z3.simplify(arg - rarg)
                     if z3.is_rational_value(d) or z3.is_int_value(d):
                         if frac_of(d) == 0:
@@ -800,6 +933,18 @@ class SymCtx(BaseCtx):
                     eqs.add(arg != rarg)
                     r = str(eqs.check())
                     eqs.pop()
+                    if r == "unknown" and not has_toint_lits:
+                        # same question with non-linear subterms abstracted, under the full path condition
+                        qs = list(self.assumptions) + list(self.lits) + [arg != rarg]
+                        nl = _maximal_nonlinear(qs)
+                        prs = [(t_, z3.Real(f"__ne{i_}") if t_.sort().kind() == z3.Z3_REAL_SORT else z3.Int(f"__nei{i_}"))
+                               for i_, t_ in enumerate(nl)]
+                        s3 = z3.Solver()
+                        s3.set("timeout", 2000)
+                        for q in qs:
+                            s3.add(z3.substitute(q, *prs) if prs else q)
+                        self.stats["queries"] += 1
+                        r = str(s3.check())
                     self.stats["solver_s"] += time.time() - t0
                     if r == "unsat":
                         target = rk
@@ -817,13 +962,7 @@ class SymCtx(BaseCtx):
         goal = z3.simplify(exprs[-1])
         if z3.is_false(goal):
             return "unsat"
-        for e in exprs[:-1] + axioms:
-            s2.add(e)
-        s2.add(goal)
-        self.stats["queries"] += 1
-        t0 = time.time()
-        r = str(s2.check())
-        self.stats["solver_s"] += time.time() - t0
+        r, _ = portfolio_check(exprs[:-1] + axioms + [goal], min(self.timeout_ms, 12000), self.stats)
         return r
 
     def eq(self, a, b, label, learn=True):
@@ -1175,7 +1314,11 @@ def explore(harness, params, max_paths=256, max_seconds=600.0, solver_timeout_ms
             except RecursionError:
                 raise
             except Exception as e:  # noqa - an exception escaping the harness is a path outcome
-                pr.outcome = f"raised:{type(e).__name__}@{_where(e.__traceback__)}"
+                site = _where(e.__traceback__)
+                if site == "harness" and not isinstance(e, (ValueError, PermissionError)):
+                    raise EngineError(f"harness bug: {type(e).__name__}: {e}\n" + "".join(
+                        traceback.format_tb(e.__traceback__)[-3:]))
+                pr.outcome = f"raised:{type(e).__name__}@{site}"
                 pr.notes.append(str(e)[:200])
             if len(ctx.trace) < len(ctx.prefix):
                 raise EngineError(f"replay divergence: prefix {len(ctx.prefix)} but only {len(ctx.trace)} decisions")
@@ -1200,6 +1343,16 @@ def explore(harness, params, max_paths=256, max_seconds=600.0, solver_timeout_ms
                                 obs[k] = Fraction(v) if not isinstance(v, float) else float_to_fraction(v)
                             else:
                                 obs[k] = v
+                        # conditioning: re-evaluate at inputs perturbed by 1e-9 (relative); results that move by more
+                        # than 1e-5 are ill-conditioned at this witness (cancellation) and are not compared
+                        pert = {n: (v if ctx.vars[n][1]["integer"] else v * (1 + Fraction(1, 10 ** 9)))
+                                for n, v in inputs.items() if n in ctx.vars}
+                        for k, v in list(ctx.observed.items()):
+                            if isinstance(v, Sym) and obs.get(k) is not None:
+                                v2 = ctx.eval_at(pert, v)
+                                if v2 is None or abs(v2 - obs[k]) > Fraction(1, 10 ** 5) * max(abs(obs[k]), abs(v2)):
+                                    obs[k] = None
+                                    stats["fidelity_cells_ill_conditioned"] = stats.get("fidelity_cells_ill_conditioned", 0) + 1
                         fobs = {}
                         if ctx.observed_fp:
                             from . import fp as _fp
